@@ -62,10 +62,36 @@ def readme_drift(rep, repo, sc):
     rep.analysed['readme_cells_compared'] = n
 
 
-def ref_tables(sc, which):
+def effective_keys(sc, repo, rep=None):
+    """Frozen reference rows, plus README rows for key names the frozen reference does not know
+    (a key added to the crate together with its documented codes is judged against the README, as the
+    property says; existing keys stay pinned to the frozen table)."""
+    keys = dict(sc['keys'])
+    rows = parse_readme(repo) or {}
+    used = {}
+    for k, v in keys.items():
+        for col in ('set1', 'set2'):
+            if v[col]:
+                used[(col, v[col])] = k
+    for k, r in rows.items():
+        if k in keys or not re.match(r'^[A-Za-z][A-Za-z0-9]*$', k):
+            continue
+        ok = True
+        for col in ('set1', 'set2'):
+            h = r[col]
+            if h is not None and (not re.match(r'^(E0|E1)?[0-9A-F]{2}$', h) or (col, h) in used):
+                ok = False
+        if ok:
+            keys[k] = r
+            if rep is not None:
+                rep.note('key %s is not in the frozen reference; judged against its README row %s' % (k, r))
+    return keys
+
+
+def ref_tables(sc, which, keys=None):
     """{prefix: {code: keyname}} for 'set1' / 'set2' from the reference."""
     t = {'': {}, 'E0': {}, 'E1': {}}
-    for k, v in sc['keys'].items():
+    for k, v in (keys or sc['keys']).items():
         h = v[which]
         if h is None:
             continue
@@ -186,7 +212,7 @@ def check_decode(ctx, rep, prop, kind, repo):
     """C01 (kind='set2') / C02 (kind='set1')."""
     sc, _xl = load_ref()
     readme_drift(rep, repo, sc)
-    tables = ref_tables(sc, kind)
+    tables = ref_tables(sc, kind, effective_keys(sc, repo, rep))
     single = set(sc['single_shot'])
     models = [m for m in build_models(ctx, rep) if m.kind == kind]
     if len(models) != 1:
@@ -408,11 +434,18 @@ def check_xlat(ctx, rep):
             if e2 is None:
                 continue
             k2, st2 = e2
-            if k2 in single or st2 == 'SingleShot':
+            if k2 in single:
                 continue
             nt += 1
             e1 = t1[p].get(c1)
             lbl = '%s%02X' % (p, c2)
+            if e1 is not None and e1[0] == k2 and e1[1] != st2:
+                rep.ob('set2->set1 make', 1, 0)
+                rep.finding('C13 prefix=%s set2=0x%02X key=%s set1=0x%02X state-mismatch set2=%s set1=%s' % (
+                    p or '-', c2, k2, c1, st2, e1[1]),
+                    'the same key is reported as %s by Set 2 (%s) but as %s by Set 1 (%s)' % (
+                        st2, m2.tab.where(m2.ctxs[p], c2), e1[1], m1.tab.where(m1.ctxs[p], c1)))
+                continue
             if e1 is None or e1[0] != k2:
                 rep.ob('set2->set1 make', 1, 0)
                 rep.finding('C13 prefix=%s set2=0x%02X key=%s set1=0x%02X got=%s' % (
@@ -450,6 +483,58 @@ def check_xlat(ctx, rep):
                             'Set 2 pre-images %s' % defined)
             else:
                 rep.ob('set1->set2 preimage', 1)
+    # ---- paired histories: both decoders are driven by every well-formed translated sequence from every pair of
+    #      states reachable that way (an error in one set must not desynchronise it from the other)
+    def feed(m, s, bytes_):
+        last = None
+        for b in bytes_:
+            res, post, _ = m.tab.cell(s, b)
+            if post is None:
+                return ('panic',), None
+            last, s = res, post
+        return last, s
+    seen = {(m1.init, m2.init)}
+    work = [(m1.init, m2.init, '')]
+    npairs = 0
+    while work:
+        s1, s2, hist = work.pop()
+        npairs += 1
+        reported = False
+        for p in ('', 'E0', 'E1'):
+            pb = [] if not p else [int(p, 16)]
+            for brk in (False, True):
+                for c2 in sorted(xl):
+                    if c2 == 0x00:
+                        continue
+                    c1 = xl[c2]
+                    seq2 = pb + ([0xF0] if brk else []) + [c2]
+                    seq1 = pb + [c1 | 0x80 if brk else c1]
+                    if seq1[-1] in (0xE0, 0xE1):
+                        continue      # the translation of this (undefined) code collides with a Set 1 prefix byte:
+                                      # not a well-formed Set 1 sequence, no key sends it
+                    r2, n2 = feed(m2, s2, seq2)
+                    r1, n1 = feed(m1, s1, seq1)
+                    if n1 is None or n2 is None:
+                        continue
+                    if (n1, n2) not in seen and len(seen) < 400:
+                        seen.add((n1, n2))
+                        work.append((n1, n2, ' '.join('%02X' % b for b in seq2)))
+                    if (s1, s2) == (m1.init, m2.init):
+                        continue      # the pair of initial states is what the table comparison above decides
+                    a, b = named(ctx, r2), named(ctx, r1)
+                    if a[0] == 'ev' and a[1] not in single and a != b:
+                        rep.ob('paired histories', 1, 0)
+                        if not reported:
+                            reported = True
+                            rep.finding('C13 after-history states=(set1:%s,set2:%s)' % (m1.state_name(s1), m2.state_name(s2)),
+                                        'after the Set 2 history "... %s" (and its translation) the decoders are in states set1=%s / set2=%s, '
+                                        'where Set 2 decodes %s as %s but Set 1 decodes %s as %s' % (
+                                            hist, m1.state_name(s1), m2.state_name(s2),
+                                            ' '.join('%02X' % x for x in seq2), show_named(a),
+                                            ' '.join('%02X' % x for x in seq1), show_named(b)))
+                    else:
+                        rep.ob('paired histories', 1)
+    rep.analysed['paired_state_pairs_explored'] = npairs
     rep.nontrivial = nt
     rep.sample({'set2': 'E0 5A', 'xlat': '5A->1C', 'set1': 'E0 1C', 'key': t2['E0'].get(0x5A, ('?',))[0]})
     rep.sample({'set2': '1C', 'xlat': '1C->%02X' % xl[0x1C], 'set1': '%02X' % xl[0x1C], 'key': t2[''].get(0x1C, ('?',))[0]})
